@@ -8,6 +8,7 @@ pub struct GEntry { pub key: Seq<u8>, pub val: Seq<u8> }
 pub open spec fn min_int(a: int, b: int) -> int { if a <= b { a } else { b } }
 
 /// one entry at the front of `s` given the previous full key: Some((entry, shared, consumed))
+#[verifier::opaque]
 pub open spec fn ent_step(s: Seq<u8>, prev: Seq<u8>) -> Option<(GEntry, u64, int)> {
     match var_dec(s) {
         None => None,
@@ -42,4 +43,46 @@ pub open spec fn ents_dec(s: Seq<u8>, prev: Seq<u8>) -> Option<Seq<GEntry>>
             } else { None },
         }
     }
+}
+
+/// (offset, shared-byte count) of every entry of an entries region that starts at offset `base`
+pub open spec fn ents_meta(s: Seq<u8>, prev: Seq<u8>, base: int) -> Seq<(int, u64)>
+    decreases s.len()
+{
+    if s.len() == 0 { Seq::empty() } else {
+        match ent_step(s, prev) {
+            None => Seq::empty(),
+            Some(p) => if 0 < p.2 <= s.len() { seq![(base, p.1)] + ents_meta(s.subrange(p.2, s.len() as int), p.0.key, base + p.2) } else { Seq::empty() },
+        }
+    }
+}
+/// the reader's matching of restart offsets against entries: index into `offs` after the first k entries
+pub open spec fn rs_idx(meta: Seq<(int, u64)>, offs: Seq<u32>, k: int) -> int
+    decreases k
+{
+    if k <= 0 { 0 } else {
+        let g = rs_idx(meta, offs, k - 1);
+        if g < offs.len() && meta[k - 1].0 == offs[g] as int && meta[k - 1].1 == 0 { g + 1 } else { g }
+    }
+}
+/// every restart offset is matched by an entry (what the reader checks before accepting a block)
+pub open spec fn restarts_match(meta: Seq<(int, u64)>, offs: Seq<u32>) -> bool { rs_idx(meta, offs, meta.len() as int) == offs.len() }
+
+/// the parts of a successfully decoded entry (ent_step is opaque to keep the callers' queries small)
+pub proof fn lemma_ent_step_parts(s: Seq<u8>, prev: Seq<u8>)
+    requires ent_step(s, prev) is Some
+    ensures ({
+        let a = var_dec(s).unwrap(); let b = var_dec(s.subrange(a.1, s.len() as int)).unwrap();
+        let c = var_dec(s.subrange(a.1 + b.1, s.len() as int)).unwrap(); let o = a.1 + b.1 + c.1;
+        let p = ent_step(s, prev).unwrap();
+        &&& var_dec(s) is Some && var_dec(s.subrange(a.1, s.len() as int)) is Some && var_dec(s.subrange(a.1 + b.1, s.len() as int)) is Some
+        &&& a.0 <= u32::MAX && b.0 <= u32::MAX && c.0 <= u32::MAX && o + b.0 + c.0 <= s.len()
+        &&& a.1 >= 1 && b.1 >= 1 && c.1 >= 1
+        &&& p.0.key == prev.take(min_int(a.0 as int, prev.len() as int)) + s.subrange(o, o + b.0 as int)
+        &&& p.0.val == s.subrange(o + b.0 as int, o + b.0 as int + c.0 as int)
+        &&& p.1 == a.0 && p.2 == o + b.0 as int + c.0 as int
+    }),
+{
+    broadcast use group_varint;
+    reveal(ent_step);
 }
